@@ -127,14 +127,14 @@ func canonValue(dec *json.Decoder, sb *strings.Builder) error {
 func presentChecks(out *core.Outcome, i *cbfs.Image, orig []byte) {
 	hexImg := core.Hex(orig)
 	text := []byte(i.String())
-	out.Checks = append(out.Checks, core.Check{Tag: "M", What: "text", Req: "text " + hexImg,
+	out.Checks = append(out.Checks, core.Check{Tag: "M", What: "text", Req: vreq("text " + hexImg),
 		Exp: fmt.Sprintf("%d %d", core.FNV(text), len(text))})
 	j, err := json.Marshal(i)
 	exp := "error"
 	if err == nil {
 		exp = canonJSON(j)
 	}
-	out.Checks = append(out.Checks, core.Check{Tag: "M", What: "json", Req: "json " + hexImg, Exp: exp})
+	out.Checks = append(out.Checks, core.Check{Tag: "M", What: "json", Req: vreq("json " + hexImg), Exp: exp})
 }
 
 // ---- Image.Update
@@ -237,7 +237,7 @@ func updateChecks(out *core.Outcome, orig []byte, withModel, relist bool) {
 		}
 	}()
 	if withModel {
-		out.Checks = append(out.Checks, core.Check{Tag: "M", What: "update", Req: "update " + updateVariant() + " " + core.Hex(orig),
+		out.Checks = append(out.Checks, core.Check{Tag: "M", What: "update", Req: vreq("update " + updateVariant() + " " + core.Hex(orig)),
 			Exp: fmt.Sprintf("%s %d %d", class, core.FNV(i.Data), len(i.Data))})
 	}
 	sig := "update-unmodified-id"
